@@ -1,7 +1,10 @@
 import Glom.Spec.C08
 import Glom.Lemmas.Frames
+import Glom.Lemmas.Hoare
 /-
-  C08 — the modes recorded at probes are the static ones: loop lemmas.
+  C08 — the modes recorded at probes are the static ones: the Hoare relation
+  `LogOK A` ("the log grew only by probes listed in `A`"), its rules for the
+  primitives, and the loop lemmas.
 -/
 set_option linter.unusedSimpArgs false
 set_option linter.unusedSectionVars false
@@ -12,455 +15,404 @@ open ScopeAlg
 def LogOK (A : List (Nat × Mode)) (st st' : St) : Prop :=
   ∃ evs, st'.log = st.log ++ evs ∧ ∀ x ∈ probesOf evs, x ∈ A
 
-theorem LogOK.refl (A) (st : St) : LogOK A st st := ⟨[], by simp, by simp [probesOf]⟩
+theorem logOK_rel (A : List (Nat × Mode)) : StRel (LogOK A) where
+  refl st := ⟨[], by simp, by simp [probesOf]⟩
+  trans := by
+    intro a b c h1 h2
+    obtain ⟨e1, a1, b1⟩ := h1
+    obtain ⟨e2, a2, b2⟩ := h2
+    refine ⟨e1 ++ e2, by rw [a2, a1, List.append_assoc], ?_⟩
+    intro x hx
+    simp only [probesOf, List.filterMap_append, List.mem_append] at hx
+    rcases hx with hx | hx
+    · exact b1 x hx
+    · exact b2 x hx
 
 theorem LogOK.mono {A B st st'} (h : LogOK A st st') (hs : ∀ x ∈ A, x ∈ B) : LogOK B st st' := by
   obtain ⟨evs, h1, h2⟩ := h
   exact ⟨evs, h1, fun x hx => hs x (h2 x hx)⟩
 
-theorem LogOK.trans {A st st' st''} (h1 : LogOK A st st') (h2 : LogOK A st' st'') : LogOK A st st'' := by
-  obtain ⟨e1, a1, b1⟩ := h1
-  obtain ⟨e2, a2, b2⟩ := h2
-  refine ⟨e1 ++ e2, by rw [a2, a1, List.append_assoc], ?_⟩
-  intro x hx
-  simp only [probesOf, List.filterMap_append, List.mem_append] at hx
-  rcases hx with hx | hx
-  · exact b1 x hx
-  · exact b2 x hx
+theorem Hoare.mono {α} {A B} {m : M α} (h : Hoare (LogOK A) m) (hs : ∀ x ∈ A, x ∈ B) :
+    Hoare (LogOK B) m := ⟨fun st => (h.run st).mono hs⟩
 
-theorem LogOK.of_eq_log {A st st'} (h : st'.log = st.log) : LogOK A st st' :=
-  ⟨[], by simp [h], by simp [probesOf]⟩
+theorem hoare_logCall (A) (n : String) (as : List V) : Hoare (LogOK A) (M.logEv (.call n as)) :=
+  ⟨fun _ => ⟨[.call n as], rfl, by simp [probesOf]⟩⟩
 
-theorem LogOK.call {A} (st : St) (n : String) (as : List V) :
-    LogOK A st { st with log := st.log ++ [.call n as] } :=
-  ⟨[.call n as], rfl, by simp [probesOf]⟩
+theorem hoare_logProbe (A) (id : Nat) (m : Mode) (h : (id, m) ∈ A) :
+    Hoare (LogOK A) (M.logEv (.probe id m)) :=
+  ⟨fun _ => ⟨[.probe id m], rfl, by simp [probesOf, h]⟩⟩
 
-theorem LogOK.probe {A} (st : St) (id : Nat) (m : Mode) (h : (id, m) ∈ A) :
-    LogOK A st { st with log := st.log ++ [.probe id m] } :=
-  ⟨[.probe id m], rfl, by simp [probesOf, h]⟩
+theorem hoare_setGvars (A) (g) : Hoare (LogOK A) (M.setGvars g) :=
+  ⟨fun _ => ⟨[], by simp [M.setGvars], by simp [probesOf]⟩⟩
+
+/-- one rule application -/
+macro "hstep" : tactic => `(tactic| first
+  | exact Hoare.pure (logOK_rel _) _
+  | exact Hoare.fail (logOK_rel _) _
+  | exact Hoare.throw (logOK_rel _) _
+  | exact Hoare.lift (logOK_rel _) _
+  | exact Hoare.getGvars (logOK_rel _)
+  | exact hoare_setGvars _ _
+  | exact hoare_logCall _ _ _
+  | assumption
+  | apply Hoare.attempt
+  | apply Hoare.bind (logOK_rel _)
+  | intro _
+  | split)
+
+macro "hauto" : tactic => `(tactic| repeat hstep)
+
+theorem callFn_ok (A) (p : Prims) (n k : String) (as : List V) (kw : List (String × V)) :
+    Hoare (LogOK A) (callFn p n k as kw) := by
+  unfold callFn; hauto
+
+theorem gvarGet_ok (A) (id : Nat) (name : String) : Hoare (LogOK A) (gvarGet id name) := by
+  unfold gvarGet; hauto
+
+theorem gvarSet_ok (A) (id : Nat) (name : String) (v : V) : Hoare (LogOK A) (gvarSet id name v) := by
+  unfold gvarSet; hauto
+
+theorem skipFunc_ok (A) (p : Prims) (sk : Skip) (v : V) : Hoare (LogOK A) (skipFunc p sk v) := by
+  unfold skipFunc
+  split
+  · hauto
+  · apply Hoare.bind (logOK_rel _) (callFn_ok ..); hauto
+  · hauto
+  · hauto
 
 section
 variable {σ : Type} [ScopeAlg σ] [LawfulScope σ]
 
-/-- every call `rec s t sc st` on a spec in `P`, in a scope whose mode is `m`,
+/-- every call `rec s t sc` on a spec in `P`, in a scope whose mode is `m`,
     extends the log by probes in `A` only -/
 def StepOK (rec : Rec σ) (m : Mode) (A : List (Nat × Mode)) (P : Spec → Prop) : Prop :=
-  ∀ s t (sc : σ) st, P s → mode sc = m → LogOK A st (rec s t sc st).1
+  ∀ s t (sc : σ), P s → mode sc = m → Hoare (LogOK A) (rec s t sc)
 
 theorem nextScope_mode (cur : σ) (last : Option σ) : mode (nextScope cur last) = mode cur := by
   cases last <;> simp [nextScope, LawfulScope.mode_chain]
 
 theorem tupleLoop_ok {rec : Rec σ} {m A P} (hrec : StepOK rec m A P) :
-    ∀ (steps : List Spec) (res : V) (cur : σ) (last : Option σ) (st : St),
-      mode cur = m → (∀ s ∈ steps, P s) → LogOK A st (tupleLoop rec steps res cur last st).1 := by
+    ∀ (steps : List Spec) (res : V) (cur : σ) (last : Option σ),
+      mode cur = m → (∀ s ∈ steps, P s) → Hoare (LogOK A) (tupleLoop rec steps res cur last) := by
   intro steps
   induction steps with
-  | nil => intro res cur last st _ _; simp [tupleLoop]; exact LogOK.refl _ _
+  | nil => intro res cur last _ _; simp only [tupleLoop]; hauto
   | cons s rest ih =>
-    intro res cur last st hm hP
+    intro res cur last hm hP
     simp only [tupleLoop]
-    have hsc0 : mode (nextScope cur last) = m := by rw [nextScope_mode, hm]
-    generalize nextScope cur last = sc at hsc0 ⊢
-    have h1 := hrec s res sc st (hP s (by simp)) hsc0
-    have hrest := fun r l st' => ih r sc l st' hsc0 (fun s' hs' => hP s' (by simp [hs']))
-    rcases hr : rec s res sc st with ⟨st', r⟩
-    rw [hr] at h1
-    cases r with
-    | error e => exact h1
-    | ok p =>
-      obtain ⟨nxt, c'⟩ := p
-      cases nxt <;> first
-        | exact h1.trans (hrest _ (some c') st')
-        | exact h1
+    have hsc : mode (nextScope cur last) = m := by rw [nextScope_mode, hm]
+    apply Hoare.bind (logOK_rel _) (hrec s res _ (hP s (by simp)) hsc)
+    intro r
+    have hrest := fun r l => ih r (nextScope cur last) l hsc (fun s' hs' => hP s' (by simp [hs']))
+    split <;> first | exact hrest _ _ | hauto
 
 theorem listLoop_ok {rec : Rec σ} {m A P} (hrec : StepOK rec m A P) (sub : Spec) (hs : P sub)
     (sc : σ) (hm : mode sc = m) :
-    ∀ (items acc : List V) (st : St), LogOK A st (listLoop rec sub sc items acc st).1 := by
+    ∀ (items acc : List V), Hoare (LogOK A) (listLoop rec sub sc items acc) := by
   intro items
   induction items with
-  | nil => intro acc st; simp [listLoop]; exact LogOK.refl _ _
+  | nil => intro acc; simp only [listLoop]; hauto
   | cons it rest ih =>
-    intro acc st
+    intro acc
     simp only [listLoop]
-    have h1 := hrec sub it sc st hs hm
-    rcases hr : rec sub it sc st with ⟨st', r⟩
-    rw [hr] at h1
-    cases r with
-    | error e => exact h1
-    | ok p =>
-      obtain ⟨v, c'⟩ := p
-      cases v <;> first
-        | exact h1.trans (ih _ st')
-        | exact h1
+    apply Hoare.bind (logOK_rel _) (hrec sub it sc hs hm)
+    intro r
+    split <;> first | exact ih _ | hauto
 
 theorem mapLoop_ok {rec : Rec σ} {m A P} (hrec : StepOK rec m A P) (target : V) (sc : σ) (hm : mode sc = m) :
-    ∀ (specs : List Spec) (acc : List V) (st : St), (∀ s ∈ specs, P s) →
-      LogOK A st (mapLoop rec target sc specs acc st).1 := by
+    ∀ (specs : List Spec) (acc : List V), (∀ s ∈ specs, P s) →
+      Hoare (LogOK A) (mapLoop rec target sc specs acc) := by
   intro specs
   induction specs with
-  | nil => intro acc st _; simp [mapLoop]; exact LogOK.refl _ _
+  | nil => intro acc _; simp only [mapLoop]; hauto
   | cons s rest ih =>
-    intro acc st hP
+    intro acc hP
     simp only [mapLoop]
-    have h1 := hrec s target sc st (hP s (by simp)) hm
-    rcases hr : rec s target sc st with ⟨st', r⟩
-    rw [hr] at h1
-    cases r with
-    | error e => exact h1
-    | ok p => exact h1.trans (ih _ st' (fun s' hs' => hP s' (by simp [hs'])))
+    apply Hoare.bind (logOK_rel _) (hrec s target sc (hP s (by simp)) hm)
+    intro r
+    exact ih _ (fun s' hs' => hP s' (by simp [hs']))
 
 theorem kwLoop_ok {rec : Rec σ} {m A P} (hrec : StepOK rec m A P) (target : V) (sc : σ) (hm : mode sc = m) :
-    ∀ (bs : List (String × Spec)) (acc : List (String × V)) (st : St), (∀ b ∈ bs, P b.2) →
-      LogOK A st (kwLoop rec target sc bs acc st).1 := by
+    ∀ (bs : List (String × Spec)) (acc : List (String × V)), (∀ b ∈ bs, P b.2) →
+      Hoare (LogOK A) (kwLoop rec target sc bs acc) := by
   intro bs
   induction bs with
-  | nil => intro acc st _; simp [kwLoop]; exact LogOK.refl _ _
+  | nil => intro acc _; simp only [kwLoop]; hauto
   | cons b rest ih =>
     obtain ⟨k, s⟩ := b
-    intro acc st hP
+    intro acc hP
     simp only [kwLoop]
-    have h1 := hrec s target sc st (hP (k, s) (by simp)) hm
-    rcases hr : rec s target sc st with ⟨st', r⟩
-    rw [hr] at h1
-    cases r with
-    | error e => exact h1
-    | ok p => exact h1.trans (ih _ st' (fun b' hb' => hP b' (by simp [hb'])))
+    apply Hoare.bind (logOK_rel _) (hrec s target sc (hP (k, s) (by simp)) hm)
+    intro r
+    exact ih _ (fun b' hb' => hP b' (by simp [hb']))
 
 theorem pairLoop_ok {p : Prims} {rec : Rec σ} {m A P} (hrec : StepOK rec m A P) (target : V) (sc : σ)
     (hm : mode sc = m) :
-    ∀ (es : List (Spec × Spec)) (acc : List (V × V)) (st : St), (∀ e ∈ es, P e.1 ∧ P e.2) →
-      LogOK A st (pairLoop p rec target sc es acc st).1 := by
+    ∀ (es : List (Spec × Spec)) (acc : List (V × V)), (∀ e ∈ es, P e.1 ∧ P e.2) →
+      Hoare (LogOK A) (pairLoop p rec target sc es acc) := by
   intro es
   induction es with
-  | nil => intro acc st _; simp [pairLoop]; exact LogOK.refl _ _
+  | nil => intro acc _; simp only [pairLoop]; hauto
   | cons e rest ih =>
     obtain ⟨ks, vs⟩ := e
-    intro acc st hP
+    intro acc hP
     simp only [pairLoop]
-    have hk := hrec ks target sc st (hP (ks, vs) (by simp)).1 hm
-    rcases hr : rec ks target sc st with ⟨st', r⟩
-    rw [hr] at hk
-    cases r with
-    | error e => exact hk
-    | ok pk =>
-      obtain ⟨k, ck⟩ := pk
-      dsimp only
-      have hv := hrec vs target sc st' (hP (ks, vs) (by simp)).2 hm
-      rcases hr2 : rec vs target sc st' with ⟨st'', r2⟩
-      rw [hr2] at hv
-      cases r2 with
-      | error e => exact hk.trans hv
-      | ok pv =>
-        obtain ⟨v, cv⟩ := pv
-        dsimp only
-        split
-        · exact (hk.trans hv).trans (ih _ st'' (fun e' he' => hP e' (by simp [he'])))
-        · exact hk.trans hv
+    apply Hoare.bind (logOK_rel _) (hrec ks target sc (hP (ks, vs) (by simp)).1 hm)
+    intro k
+    apply Hoare.bind (logOK_rel _) (hrec vs target sc (hP (ks, vs) (by simp)).2 hm)
+    intro v
+    split
+    · exact ih _ (fun e' he' => hP e' (by simp [he']))
+    · hauto
 
 theorem dictLoop_ok {p : Prims} {rec : Rec σ} {m A P} (hrec : StepOK rec m A P) (target : V) (sc : σ)
     (hm : mode sc = m) :
-    ∀ (es : List (Spec × Spec)) (acc : List (V × V)) (st : St), (∀ e ∈ es, P e.1 ∧ P e.2) →
-      LogOK A st (dictLoop p rec target sc es acc st).1 := by
+    ∀ (es : List (Spec × Spec)) (acc : List (V × V)), (∀ e ∈ es, P e.1 ∧ P e.2) →
+      Hoare (LogOK A) (dictLoop p rec target sc es acc) := by
   intro es
   induction es with
-  | nil => intro acc st _; simp [dictLoop]; exact LogOK.refl _ _
+  | nil => intro acc _; simp only [dictLoop]; hauto
   | cons e rest ih =>
     obtain ⟨field, sub⟩ := e
-    intro acc st hP
-    have hrest := fun acc' st' => ih acc' st' (fun e' he' => hP e' (by simp [he']))
-    have hv := hrec sub target sc st (hP (field, sub) (by simp)).2 hm
-    have hkk := fun st' => hrec field target sc st' (hP (field, sub) (by simp)).1 hm
-    unfold dictLoop
-    rcases hr : rec sub target sc st with ⟨st', r⟩
-    rw [hr] at hv
-    cases r with
-    | error e => exact hv
-    | ok pv =>
-      obtain ⟨val, c'⟩ := pv
-      have key_case : ∀ (f : Spec), f = field →
-          LogOK A st (match rec f target sc st' with
-            | (st'', .error e) => ((st'', .error e) : St × Except Err (List (V × V)))
-            | (st'', .ok (k, _)) =>
-              if p.hashable k then dictLoop p rec target sc rest (dictSet p acc k val) st''
-              else (st'', .error ⟨"TypeError"⟩)).1 := by
-        intro f hf; subst hf
-        have hk := hkk st'
-        rcases hr2 : rec f target sc st' with ⟨st'', r2⟩
-        rw [hr2] at hk
-        cases r2 with
-        | error e => exact hv.trans hk
-        | ok pk =>
-          simp only
-          split
-          · exact (hv.trans hk).trans (hrest _ st'')
-          · exact hv.trans hk
-      have lit_case : LogOK A st (match reify field with
-            | some k => dictLoop p rec target sc rest (dictSet p acc k val) st'
-            | Option.none => ((st', .error ⟨"Unsupported"⟩) : St × Except Err (List (V × V)))).1 := by
+    intro acc hP
+    have hrest := fun acc' => ih acc' (fun e' he' => hP e' (by simp [he']))
+    simp only [dictLoop]
+    apply Hoare.bind (logOK_rel _) (hrec sub target sc (hP (field, sub) (by simp)).2 hm)
+    intro r
+    split
+    · exact hrest _
+    · split
+      · apply Hoare.bind (logOK_rel _) (hrec field target sc (hP (field, sub) (by simp)).1 hm)
+        intro k
         split
-        · exact hv.trans (hrest _ st')
-        · exact hv
-      cases val <;> first
-        | exact hv.trans (hrest _ st')
-        | (cases field <;> first | exact key_case _ rfl | exact lit_case)
-
-theorem skipFunc_ok {A} (p : Prims) (sk : Skip) (v : V) (st : St) : LogOK A st (skipFunc p sk v st).1 := by
-  cases sk with
-  | never => exact LogOK.refl _ _
-  | anyOf vs => exact LogOK.refl _ _
-  | eq x => exact LogOK.refl _ _
-  | pred n k =>
-    simp only [skipFunc]
-    split <;> exact LogOK.call st n [v]
+        · exact hrest _
+        · hauto
+      · split
+        · exact hrest _
+        · hauto
 
 theorem coalesceLoop_ok {p : Prims} {rec : Rec σ} {m A P} (hrec : StepOK rec m A P) (target : V) (sc : σ)
     (hm : mode sc = m) (sk : Skip) (skipExc : List String) :
-    ∀ (subs : List Spec) (st : St), (∀ s ∈ subs, P s) →
-      LogOK A st (coalesceLoop p rec target sc sk skipExc subs st).1 := by
+    ∀ (subs : List Spec), (∀ s ∈ subs, P s) →
+      Hoare (LogOK A) (coalesceLoop p rec target sc sk skipExc subs) := by
   intro subs
   induction subs with
-  | nil => intro st _; simp [coalesceLoop]; exact LogOK.refl _ _
+  | nil => intro _; simp only [coalesceLoop]; hauto
   | cons s rest ih =>
-    intro st hP
-    have hrest := fun st' => ih st' (fun s' hs' => hP s' (by simp [hs']))
+    intro hP
+    have hrest := ih (fun s' hs' => hP s' (by simp [hs']))
     simp only [coalesceLoop]
-    have h1 := hrec s target sc st (hP s (by simp)) hm
-    rcases hr : rec s target sc st with ⟨st', r⟩
-    rw [hr] at h1
-    cases r with
-    | error e =>
-      dsimp only
+    apply Hoare.bind (logOK_rel _) (Hoare.attempt (hrec s target sc (hP s (by simp)) hm))
+    intro r
+    split
+    · split
+      · exact hrest
+      · hauto
+    · apply Hoare.bind (logOK_rel _) (skipFunc_ok ..)
+      intro b
       split
-      · exact h1.trans (hrest st')
-      · exact h1
-    | ok pv =>
-      obtain ⟨ret, c⟩ := pv
-      dsimp only
-      have h2 : LogOK A st' (skipFunc p sk ret st').1 := skipFunc_ok p sk ret st'
-      rcases hr2 : skipFunc p sk ret st' with ⟨st'', r2⟩
-      rw [hr2] at h2
-      cases r2 with
-      | error e => exact h1.trans h2
-      | ok b =>
-        cases b
-        · exact h1.trans h2
-        · exact (h1.trans h2).trans (hrest st'')
+      · exact hrest
+      · hauto
 
 theorem andLoop_ok {rec : Rec σ} {m A P} (hrec : StepOK rec m A P) (target : V) (sc : σ) (hm : mode sc = m) :
-    ∀ (cs : List Spec) (res : V) (st : St), (∀ s ∈ cs, P s) →
-      LogOK A st (andLoop rec target sc cs res st).1 := by
+    ∀ (cs : List Spec) (res : V), (∀ s ∈ cs, P s) → Hoare (LogOK A) (andLoop rec target sc cs res) := by
   intro cs
   induction cs with
-  | nil => intro res st _; simp [andLoop]; exact LogOK.refl _ _
+  | nil => intro res _; simp only [andLoop]; hauto
   | cons c rest ih =>
-    intro res st hP
+    intro res hP
     simp only [andLoop]
-    have h1 := hrec c target sc st (hP c (by simp)) hm
-    rcases hr : rec c target sc st with ⟨st', r⟩
-    rw [hr] at h1
-    cases r with
-    | error e => exact h1
-    | ok pv => exact h1.trans (ih _ st' (fun s' hs' => hP s' (by simp [hs'])))
+    apply Hoare.bind (logOK_rel _) (hrec c target sc (hP c (by simp)) hm)
+    intro r
+    exact ih _ (fun s' hs' => hP s' (by simp [hs']))
 
 theorem orLoop_ok {p : Prims} {rec : Rec σ} {m A P} (hrec : StepOK rec m A P) (target : V) (sc : σ)
     (hm : mode sc = m) :
-    ∀ (cs : List Spec) (st : St), (∀ s ∈ cs, P s) → LogOK A st (orLoop p rec target sc cs st).1 := by
+    ∀ (cs : List Spec), (∀ s ∈ cs, P s) → Hoare (LogOK A) (orLoop p rec target sc cs) := by
   intro cs
   induction cs with
-  | nil => intro st _; simp [orLoop]; exact LogOK.refl _ _
+  | nil => intro _; simp only [orLoop]; hauto
   | cons c rest ih =>
-    intro st hP
-    have h1 := hrec c target sc st (hP c (by simp)) hm
+    intro hP
+    have h1 := hrec c target sc (hP c (by simp)) hm
     cases rest with
     | nil =>
       simp only [orLoop]
-      rcases hr : rec c target sc st with ⟨st', r⟩
-      rw [hr] at h1
-      cases r <;> exact h1
+      apply Hoare.bind (logOK_rel _) h1; hauto
     | cons c2 rest2 =>
       simp only [orLoop]
-      rcases hr : rec c target sc st with ⟨st', r⟩
-      rw [hr] at h1
-      cases r with
-      | error e =>
-        dsimp only
-        split
-        · exact h1.trans (ih st' (fun s' hs' => hP s' (by simp [hs'])))
-        · exact h1
-      | ok pv => exact h1
+      apply Hoare.bind (logOK_rel _) (Hoare.attempt h1)
+      intro r
+      split
+      · split
+        · exact ih (fun s' hs' => hP s' (by simp [hs']))
+        · hauto
+      · hauto
 
 theorem switchLoop_ok {p : Prims} {rec : Rec σ} {m A P} (hrec : StepOK rec m A P) (target : V) (sc : σ)
     (hm : mode sc = m) :
-    ∀ (cases : List (Spec × Spec)) (st : St), (∀ e ∈ cases, P e.1 ∧ P e.2) →
-      LogOK A st (switchLoop p rec target sc cases st).1 := by
+    ∀ (cases : List (Spec × Spec)), (∀ e ∈ cases, P e.1 ∧ P e.2) →
+      Hoare (LogOK A) (switchLoop p rec target sc cases) := by
   intro cases
   induction cases with
-  | nil => intro st _; simp [switchLoop]; exact LogOK.refl _ _
+  | nil => intro _; simp only [switchLoop]; hauto
   | cons e rest ih =>
     obtain ⟨ks, vs⟩ := e
-    intro st hP
+    intro hP
     simp only [switchLoop]
-    have hk := hrec ks target sc st (hP (ks, vs) (by simp)).1 hm
-    rcases hr : rec ks target sc st with ⟨st', r⟩
-    rw [hr] at hk
-    cases r with
-    | error e =>
-      dsimp only
-      split
-      · exact hk.trans (ih st' (fun e' he' => hP e' (by simp [he'])))
-      · exact hk
-    | ok pk =>
-      obtain ⟨k, c⟩ := pk
-      dsimp only
-      have hv := hrec vs target (chain sc c) st' (hP (ks, vs) (by simp)).2
-        (by rw [LawfulScope.mode_chain, hm])
-      rcases hr2 : rec vs target (chain sc c) st' with ⟨st'', r2⟩
-      rw [hr2] at hv
-      cases r2 <;> exact hk.trans hv
+    apply Hoare.bind (logOK_rel _) (Hoare.attempt (hrec ks target sc (hP (ks, vs) (by simp)).1 hm))
+    intro r
+    split
+    · split
+      · exact ih (fun e' he' => hP e' (by simp [he']))
+      · hauto
+    · rename_i k
+      apply Hoare.bind (logOK_rel _)
+        (hrec vs target (chain sc k.2) (hP (ks, vs) (by simp)).2 (by rw [LawfulScope.mode_chain, hm]))
+      hauto
 
 theorem altLoop_ok {p : Prims} {rec : Rec σ} {m A P} (hrec : StepOK rec m A P) (sc : σ) (hm : mode sc = m)
     (item : V) :
-    ∀ (alts : List Spec) (last : Option Err) (st : St), (∀ s ∈ alts, P s) →
-      LogOK A st (altLoop p rec sc item alts last st).1 := by
+    ∀ (alts : List Spec) (last : Option Err), (∀ s ∈ alts, P s) →
+      Hoare (LogOK A) (altLoop p rec sc item alts last) := by
   intro alts
   induction alts with
-  | nil => intro last st _; simp [altLoop]; exact LogOK.refl _ _
+  | nil => intro last _; simp only [altLoop]; hauto
   | cons c rest ih =>
-    intro last st hP
+    intro last hP
     simp only [altLoop]
-    have h1 := hrec c item sc st (hP c (by simp)) hm
-    rcases hr : rec c item sc st with ⟨st', r⟩
-    rw [hr] at h1
-    cases r with
-    | ok pv => exact h1
-    | error e =>
-      dsimp only
-      split
-      · exact h1.trans (ih _ st' (fun s' hs' => hP s' (by simp [hs'])))
-      · exact h1
+    apply Hoare.bind (logOK_rel _) (Hoare.attempt (hrec c item sc (hP c (by simp)) hm))
+    intro r
+    split
+    · hauto
+    · split
+      · exact ih _ (fun s' hs' => hP s' (by simp [hs']))
+      · hauto
 
 theorem matchItemsLoop_ok {p : Prims} {rec : Rec σ} {m A P} (hrec : StepOK rec m A P) (sc : σ)
     (hm : mode sc = m) (alts : List Spec) (hP : ∀ s ∈ alts, P s) :
-    ∀ (items acc : List V) (st : St), LogOK A st (matchItemsLoop p rec sc alts items acc st).1 := by
+    ∀ (items acc : List V), Hoare (LogOK A) (matchItemsLoop p rec sc alts items acc) := by
   intro items
   induction items with
-  | nil => intro acc st; simp [matchItemsLoop]; exact LogOK.refl _ _
+  | nil => intro acc; simp only [matchItemsLoop]; hauto
   | cons it rest ih =>
-    intro acc st
+    intro acc
     simp only [matchItemsLoop]
-    have h1 := altLoop_ok (p := p) hrec sc hm it alts Option.none st hP
-    rcases hr : altLoop p rec sc it alts Option.none st with ⟨st', r⟩
-    rw [hr] at h1
-    cases r with
-    | error e => exact h1
-    | ok v => exact h1.trans (ih _ st')
+    apply Hoare.bind (logOK_rel _) (altLoop_ok (p := p) hrec sc hm it alts Option.none hP)
+    intro v
+    exact ih _
 
 theorem zipLoop_ok {rec : Rec σ} {m A P} (hrec : StepOK rec m A P) (sc : σ) (hm : mode sc = m) :
-    ∀ (ts : List V) (ss : List Spec) (acc : List V) (st : St), (∀ s ∈ ss, P s) →
-      LogOK A st (zipLoop rec sc ts ss acc st).1 := by
+    ∀ (ts : List V) (ss : List Spec) (acc : List V), (∀ s ∈ ss, P s) →
+      Hoare (LogOK A) (zipLoop rec sc ts ss acc) := by
   intro ts
   induction ts with
-  | nil => intro ss acc st _; simp [zipLoop]; exact LogOK.refl _ _
+  | nil => intro ss acc _; simp only [zipLoop]; hauto
   | cons t rest ih =>
-    intro ss acc st hP
+    intro ss acc hP
     cases ss with
-    | nil => simp [zipLoop]; exact LogOK.refl _ _
+    | nil => simp only [zipLoop]; hauto
     | cons s srest =>
       simp only [zipLoop]
-      have h1 := hrec s t sc st (hP s (by simp)) hm
-      rcases hr : rec s t sc st with ⟨st', r⟩
-      rw [hr] at h1
-      cases r with
-      | error e => exact h1
-      | ok pv => exact h1.trans (ih _ _ st' (fun s' hs' => hP s' (by simp [hs'])))
+      apply Hoare.bind (logOK_rel _) (hrec s t sc (hP s (by simp)) hm)
+      intro r
+      exact ih _ _ (fun s' hs' => hP s' (by simp [hs']))
 
 theorem matchKeyLoop_ok {p : Prims} {rec : Rec σ} {m A P} (hrec : StepOK rec m A P) (sc : σ)
     (hm : mode sc = m) (key val : V) :
-    ∀ (spec : List (Spec × Spec)) (st : St), (∀ e ∈ spec, P e.1 ∧ P e.2) →
-      LogOK A st (matchKeyLoop p rec sc key val spec st).1 := by
+    ∀ (spec : List (Spec × Spec)), (∀ e ∈ spec, P e.1 ∧ P e.2) →
+      Hoare (LogOK A) (matchKeyLoop p rec sc key val spec) := by
   intro spec
   induction spec with
-  | nil => intro st _; simp [matchKeyLoop]; exact LogOK.refl _ _
+  | nil => intro _; simp only [matchKeyLoop]; hauto
   | cons e rest ih =>
     obtain ⟨ks, vs⟩ := e
-    intro st hP
+    intro hP
     simp only [matchKeyLoop]
-    have hk := hrec ks key sc st (hP (ks, vs) (by simp)).1 hm
-    rcases hr : rec ks key sc st with ⟨st', r⟩
-    rw [hr] at hk
-    cases r with
-    | error e =>
-      dsimp only
-      split
-      · exact hk.trans (ih st' (fun e' he' => hP e' (by simp [he'])))
-      · exact hk
-    | ok pk =>
-      obtain ⟨k, c⟩ := pk
-      dsimp only
-      have hv := hrec vs val (chain sc c) st' (hP (ks, vs) (by simp)).2
-        (by rw [LawfulScope.mode_chain, hm])
-      rcases hr2 : rec vs val (chain sc c) st' with ⟨st'', r2⟩
-      rw [hr2] at hv
-      cases r2 <;> exact hk.trans hv
+    apply Hoare.bind (logOK_rel _) (Hoare.attempt (hrec ks key sc (hP (ks, vs) (by simp)).1 hm))
+    intro r
+    split
+    · split
+      · exact ih (fun e' he' => hP e' (by simp [he']))
+      · hauto
+    · rename_i k
+      apply Hoare.bind (logOK_rel _)
+        (hrec vs val (chain sc k.2) (hP (ks, vs) (by simp)).2 (by rw [LawfulScope.mode_chain, hm]))
+      hauto
 
 theorem matchDictLoop_ok {p : Prims} {rec : Rec σ} {m A P} (hrec : StepOK rec m A P) (sc : σ)
     (hm : mode sc = m) (spec : List (Spec × Spec)) (hP : ∀ e ∈ spec, P e.1 ∧ P e.2) :
-    ∀ (tes : List (V × V)) (acc : List (V × V)) (used : List Spec) (st : St),
-      LogOK A st (matchDictLoop p rec sc spec tes acc used st).1 := by
+    ∀ (tes : List (V × V)) (acc : List (V × V)) (used : List Spec),
+      Hoare (LogOK A) (matchDictLoop p rec sc spec tes acc used) := by
   intro tes
   induction tes with
-  | nil => intro acc used st; simp [matchDictLoop]; exact LogOK.refl _ _
+  | nil => intro acc used; simp only [matchDictLoop]; hauto
   | cons e rest ih =>
     obtain ⟨k, v⟩ := e
-    intro acc used st
+    intro acc used
     simp only [matchDictLoop]
-    have h1 := matchKeyLoop_ok (p := p) hrec sc hm k v spec st hP
-    rcases hr : matchKeyLoop p rec sc k v spec st with ⟨st', r⟩
-    rw [hr] at h1
-    cases r with
-    | error e => exact h1
-    | ok o =>
-      cases o with
-      | none => exact h1
-      | some t =>
-        obtain ⟨k', v', ks⟩ := t
-        exact h1.trans (ih _ _ st')
+    apply Hoare.bind (logOK_rel _) (matchKeyLoop_ok (p := p) hrec sc hm k v spec hP)
+    intro r
+    split
+    · hauto
+    · exact ih _ _
 
 theorem groupLoop_ok {rec : Rec σ} {m A P} (hrec : StepOK rec m A P) (sub : Spec) (hs : P sub)
     (sc : σ) (hm : mode sc = m) :
-    ∀ (items : List V) (ret : V) (st : St), LogOK A st (groupLoop rec sub sc items ret st).1 := by
+    ∀ (items : List V) (ret : V), Hoare (LogOK A) (groupLoop rec sub sc items ret) := by
   intro items
   induction items with
-  | nil => intro ret st; simp [groupLoop]; exact LogOK.refl _ _
+  | nil => intro ret; simp only [groupLoop]; hauto
   | cons it rest ih =>
-    intro ret st
+    intro ret
     simp only [groupLoop]
-    have h1 := hrec sub it sc st hs hm
-    rcases hr : rec sub it sc st with ⟨st', r⟩
-    rw [hr] at h1
-    cases r with
-    | error e => exact h1
-    | ok p =>
-      obtain ⟨v, c'⟩ := p
-      cases v <;> first
-        | exact h1.trans (ih _ st')
-        | exact h1
+    apply Hoare.bind (logOK_rel _) (hrec sub it sc hs hm)
+    intro r
+    split <;> first | exact ih _ | hauto
 
 theorem argVal_ok {rec : Rec σ} {m A P} (hrec : StepOK rec m A P) (target : V) (arg : Spec) (hs : P arg)
-    (sc : σ) (hm : mode sc = m) (st : St) : LogOK A st (argVal rec target arg sc st).1 := by
+    (sc : σ) (hm : mode sc = m) : Hoare (LogOK A) (argVal rec target arg sc) := by
   simp only [argVal]
-  have h1 := hrec arg target (setArgMode sc true) st hs (by rw [LawfulScope.mode_setArgMode, hm])
-  rcases hr : rec arg target (setArgMode sc true) st with ⟨st', r⟩
-  rw [hr] at h1
-  cases r <;> exact h1
+  apply Hoare.bind (logOK_rel _) (hrec arg target _ hs (by rw [LawfulScope.mode_setArgMode, hm]))
+  hauto
 
-theorem dfltVal_ok {rec : Rec σ} {m A P} (hrec : StepOK rec m A P) (target : V) (arg : Spec) (hs : P arg)
-    (sc : σ) (hm : mode sc = m) (st : St) : LogOK A st (dfltVal rec target arg sc st).1 := by
-  simp only [dfltVal]
-  have h1 := argVal_ok hrec target arg hs sc hm st
-  rcases hr : argVal rec target arg sc st with ⟨st', r⟩
-  rw [hr] at h1
-  cases r <;> exact h1
+theorem invokeLoop_ok {rec : Rec σ} {m A P} (hrec : StepOK rec m A P) (target : V) (sc : σ)
+    (hm : mode sc = m) :
+    ∀ (blocks : List (String × List Spec × List (String × Spec))) (as : List V) (kws : List (String × V)),
+      (∀ b ∈ blocks, (∀ s ∈ b.2.1, P s) ∧ (∀ kv ∈ b.2.2, P kv.2)) →
+      Hoare (LogOK A) (invokeLoop rec target sc blocks as kws) := by
+  intro blocks
+  induction blocks with
+  | nil => intro as kws _; simp only [invokeLoop]; hauto
+  | cons b rest ih =>
+    obtain ⟨op, pos, kw⟩ := b
+    intro as kws hP
+    have hb := hP (op, pos, kw) (by simp)
+    have hrest := fun as' kws' => ih as' kws' (fun b' hb' => hP b' (by simp [hb']))
+    simp only [invokeLoop]
+    split
+    · apply Hoare.bind (logOK_rel _) (mapLoop_ok hrec target sc hm pos [] hb.1)
+      intro vs
+      split
+      · hauto
+      · apply Hoare.bind (logOK_rel _)
+          (mapLoop_ok hrec target sc hm (kw.map (·.2)) [] (by
+            intro s hs
+            obtain ⟨kv, hkv, rfl⟩ := List.mem_map.mp hs
+            exact hb.2 kv hkv))
+        intro kvs
+        split
+        · hauto
+        · exact hrest _ _
+    · split
+      · exact hrest _ _
+      · apply Hoare.bind (logOK_rel _) (mapLoop_ok hrec target sc hm pos [] hb.1)
+        intro vs
+        apply Hoare.bind (logOK_rel _) (kwLoop_ok hrec target sc hm _ [] (by
+          intro kv hkv
+          exact hb.2 kv (List.mem_filter.mp hkv).1))
+        intro kvs
+        exact hrest _ _
 
 end
 end Glom.Interp
